@@ -1033,8 +1033,8 @@ def run(ctx):
                 on_trial_error="warn", nsearch=1, opts={})
     add("probe:limit", dict(base, minimize="limit"))
     add("probe:limit-64", dict(base, minimize="limit-64"))
-    add("probe:combo-256+reconf", dict(base, minimize="combo-256", opts={"reconf_opts": {}}))
-    add("probe:limit-8+slicing_reconf", dict(base, minimize="limit-8", opts={"slicing_reconf_opts": {"target_size": 8}}))
+    add("reg:combo-256+reconf", dict(base, minimize="combo-256", opts={"reconf_opts": {}}))
+    add("reg:limit-8+slicing_reconf", dict(base, minimize="limit-8", opts={"slicing_reconf_opts": {"target_size": 8}}))
     add("probe:custom-bare", dict(base, minimize="custom-bare"))
     # regression shapes around them that must work
     add("reg:limit+slicing", dict(base, minimize="limit", opts={"slicing_opts": {"target_slices": 2}}))
